@@ -2031,6 +2031,9 @@ impl Zeroconf {
                 .or_insert_with(DnsRegistry::new),
         };
 
+        // Services announced right away, to be announced a second time (RFC 6762 section 8.3).
+        let mut announced_now = Vec::new();
+
         for (_, service_info) in self.my_services.iter_mut() {
             if service_info.is_addr_auto() {
                 service_info.insert_ipaddr(&intf);
@@ -2048,6 +2051,7 @@ impl Zeroconf {
                         intf.ip()
                     );
                     service_info.set_status(if_index, ServiceStatus::Announced);
+                    announced_now.push(service_info.get_fullname().to_string());
                 } else {
                     for timer in dns_registry.new_timers.drain(..) {
                         self.timers.push(Reverse(timer));
@@ -2055,6 +2059,11 @@ impl Zeroconf {
                     service_info.set_status(if_index, ServiceStatus::Probing);
                 }
             }
+        }
+
+        let next_time = current_time_millis() + 1000;
+        for fullname in announced_now {
+            self.add_retransmission(next_time, Command::RegisterResend(fullname, if_index));
         }
 
         // Send browse queries on the new interface without known answers.
